@@ -1341,7 +1341,7 @@ pub fn run(rng: &mut Rng, tier: &str, out: &str) -> Report {
     let mut cw = CaseWriter::new(out, "edit", HEADER, 1);
     let thorough = tier == "thorough";
     probes(&mut rep);
-    let n_prog = if thorough { 420 } else { 48 };
+    let n_prog = if thorough { 300 } else { 48 };
     let encs = [TextEncoding::UnicodeCodePoint, TextEncoding::Utf8CodeUnit, TextEncoding::Utf16CodeUnit];
     for pi in 0..n_prog {
         // every sixth program is direct-only: marks, blocks, and (half of them) grapheme clusters
